@@ -108,22 +108,70 @@ package stdlib
 //@ func EvalArgInt
 //@   requires idx >= 0
 
+
+// ---- C17: array helpers ------------------------------------------------------------------
+// The splitter stays inside its string and its k-th Next() hands out list element k-1
+// (sp_idx counts the calls; contract of Next in pkg/stringSplitter).
+//@ pred sp_ok(sp) := len(sp.Delim) >= 1 && sp.next <= len(sp.S)
+
+// List-builder protocol: every write to the result builder is either an element or a separator
+// (lb_elems / lb_seps count them). A separator is written only directly after an element and an
+// element only at the start or directly after a separator, so a result never has a separator that
+// does not delimit two elements: lb_seps == max(lb_elems - 1, 0) whenever the builder is at rest.
+//@ ghost lb_elems(strings.Builder) int
+//@ ghost lb_seps(strings.Builder) int
+//@ pred lb_ok(b) := lb_elems(b) >= 0 && lb_seps(b) == (if lb_elems(b) > 0 then lb_elems(b) - 1 else 0)
+
+// A sub-expression sees {0} = v0, {1} = v1 and the keys of the enclosing match
+//@ func (*subContext).Eval
+//@   requires stage != nil
+//@   modifies s.vals
+//@   ensures s.parent == old(s.parent)
+//@ func (*subContext).GetMatch
+//@   pure
+//@   ensures (idx == 0 ==> result == s.vals[0]) && (idx == 1 ==> result == s.vals[1]) && (idx < 0 || idx > 1 ==> result == "")
+
+// split/join/map: one output element per input element, in order, joined by the joiner
 //@ func arrayOperator
 //@   requires len(delim) >= 1
 //@   requires mapper != nil
+//@   ghostset at "ret.WriteString(mapper(splitter.Next()))"#1 : lb_elems(addrof(ret)) := old(lb_elems(addrof(ret))) + 1
+//@   ghostset at "ret.WriteString(mapper(splitter.Next()))"#2 : lb_elems(addrof(ret)) := old(lb_elems(addrof(ret))) + 1
+//@   ghostset at "ret.WriteString(joiner)" : lb_seps(addrof(ret)) := old(lb_seps(addrof(ret))) + 1
+//@   assert at "ret.WriteString(joiner)" : lb_seps(addrof(ret)) == lb_elems(addrof(ret)) && lb_elems(addrof(ret)) >= 1
+//@   assert at "ret.WriteString(mapper(splitter.Next()))"#2 : lb_seps(addrof(ret)) == lb_elems(addrof(ret)) - 1
+//@   assert at "return ret.String()" : lb_ok(addrof(ret)) && lb_elems(addrof(ret)) == sp_idx(addrof(splitter)) && splitter.next < 0
 //@   loop 1 invariant len(splitter.Delim) >= 1 && splitter.next <= len(splitter.S) && mapper != nil
+//@   loop 1 invariant lb_ok(addrof(ret)) && lb_elems(addrof(ret)) >= 1 && lb_elems(addrof(ret)) == sp_idx(addrof(splitter))
 
-// ---- array helpers: the splitter stays inside its string (C08), see C17 for list semantics ----
-//@ pred sp_ok(sp) := len(sp.Delim) >= 1 && sp.next <= len(sp.S)
-
+// {@select arr i}: the element returned is number i (counting from the end for negative i)
 //@ func kfArraySelect$1
-//@   loop 1 invariant sp_ok(splitter)
+//@   assert at "return val" : sp_idx(addrof(splitter)) == searchIndex + 1
+//@   loop 1 invariant sp_ok(splitter) && i == sp_idx(addrof(splitter)) && i >= 0 && (splitter.next >= 0 ==> i <= splitter.next)
+
+// {@slice arr start len}: exactly the elements inside the window are written, separators only between them
 //@ func kfArraySlice$1
-//@   loop 1 invariant sp_ok(splitter)
+//@   ghostset at "ret.WriteString(ArraySeparatorString)" : lb_seps(addrof(ret)) := old(lb_seps(addrof(ret))) + 1
+//@   ghostset at "ret.WriteString(val)" : lb_elems(addrof(ret)) := old(lb_elems(addrof(ret))) + 1
+//@   assert at "ret.WriteString(ArraySeparatorString)" : lb_seps(addrof(ret)) == lb_elems(addrof(ret)) && lb_elems(addrof(ret)) >= 1
+//@   assert at "ret.WriteString(val)" : lb_seps(addrof(ret)) == lb_elems(addrof(ret)) - 1 && sp_idx(addrof(splitter)) == i + 1 && i >= realStart && (*sliceLen < 0 || i < realStart + *sliceLen)
+//@   assert at "return ret.String()" : lb_ok(addrof(ret))
+//@   loop 1 invariant sp_ok(splitter) && lb_ok(addrof(ret)) && i == sp_idx(addrof(splitter)) && i >= 0 && (splitter.next >= 0 ==> i <= splitter.next)
+//@   loop 1 invariant lb_elems(addrof(ret)) == (if i > realStart && i > 0 then (if realStart > 0 then i - realStart else i) else 0)
+
 //@ func kfArrayReduce$1
 //@   loop 1 invariant sp_ok(splitter) && mapperContext != nil
+
+// {@filter arr expr}: kept elements are separated, nothing else is written
 //@ func kfArrayFilter$1
-//@   loop 1 invariant sp_ok(splitter) && sub != nil
+//@   ghostset at "sb.WriteRune(ArraySeparator)" : lb_seps(addrof(sb)) := old(lb_seps(addrof(sb))) + 1
+//@   ghostset at "sb.WriteString(item)" : lb_elems(addrof(sb)) := old(lb_elems(addrof(sb))) + 1
+//@   assert at "sb.WriteRune(ArraySeparator)" : lb_seps(addrof(sb)) == lb_elems(addrof(sb)) && lb_elems(addrof(sb)) >= 1
+//@   assert at "sb.WriteString(item)" : lb_seps(addrof(sb)) == lb_elems(addrof(sb)) - 1
+//@   assert at "return sb.String()" : lb_ok(addrof(sb))
+//@   loop 1 invariant sp_ok(splitter) && sub != nil && lb_ok(addrof(sb)) && (needSep <==> lb_elems(addrof(sb)) > 0)
+
+// {@for start cont incr}: at most MAX_ITERATIONS separated values
 //@ func kfArrayFor$1
 //@   loop 1 invariant sub != nil
 
